@@ -9,7 +9,7 @@ MISSING = "no_such_path.st"
 
 
 def file_text(fid, cls, provider):
-    n = fid.upper()
+    n = fid.upper() if fid.islower() else fid.upper() + "X"      # w1.st and W1.st are two files with declarations of their own
     if cls == "V":
         return ("TYPE LEVEL_%s : (LOW_%s, HIGH_%s) := LOW_%s; END_TYPE\nFUNCTION_BLOCK FB_%s\nVAR a : INT; b : INT; END_VAR\n"
                 "a := b + 1;\nEND_FUNCTION_BLOCK\n" % (n, n, n, n, n))
@@ -21,10 +21,10 @@ def file_text(fid, cls, provider):
 
 
 DISK = {  # mirrors spec/MC_Cli.tla
-    "dirof": {"v1": "dA", "d1": "dA", "v2": "dB", "s1": "dB", "v3": "dD", "l1": "dE", "y1": "dF"},
-    "classof": {"v1": "V", "d1": "D", "v2": "V", "s1": "S", "v3": "V", "l1": "L", "y1": "Y"},
+    "dirof": {"v1": "dA", "d1": "dA", "v2": "dB", "s1": "dB", "v3": "dD", "l1": "dE", "y1": "dF", "w1": "dG", "W1": "dG"},
+    "classof": {"v1": "V", "d1": "D", "v2": "V", "s1": "S", "v3": "V", "l1": "L", "y1": "Y", "w1": "S", "W1": "V"},
     "provider": {"d1": "v1"},
-    "dirs": ["dA", "dB", "dC", "dD", "dE", "dF"],
+    "dirs": ["dA", "dB", "dC", "dD", "dE", "dF", "dG"],
     "baddirs": ["dD"],
 }
 
